@@ -15,7 +15,7 @@ C17  Sampling utilities honour their proportionality and balance guarantees  (st
 """
 import ast
 
-from sa.astutil import dump, where, kwargs_of, walk_no_nested, is_const
+from sa.astutil import oriented, dump, where, kwargs_of, walk_no_nested, is_const
 from sa.model import AnalysisError, body_nodoc
 from sa.order import enumerate_paths, Event, names
 from sa.vn import VN, Poly, parse_expr, VNUnknown
@@ -464,6 +464,7 @@ def check_sus(prog, rep):
         rep.unrec("R3-sus", construct, "pointer loop body is not (advance while, append)")
         return
     t = wl[0].test
+    t = oriented(t, lambda e: isinstance(e, ast.Subscript) and dump(e.value) == cum) or t
     ixn = None
     if isinstance(t, ast.Compare) and len(t.ops) == 1 and isinstance(t.left, ast.Subscript) and dump(t.left.value) == cum and dump(t.comparators[0]) == ptr:
         ixn = dump(t.left.slice)
